@@ -60,6 +60,8 @@ struct Ctx {
     bool mine(uint64_t idx) const { return (int)(idx % (uint64_t)nworkers) == worker; }
     bool expired();
     void violation(const Str &finding, const Str &enc, const Str &detail);
+    // the oracle contradicted itself (e.g. the two recognisers disagree): the run is void, exit status 2
+    void harness_error(const Str &what) { st.count("harness_errors"); if (st.nset("harness_error_examples") < 5) st.distinct("harness_error_examples", what); }
 };
 
 double now_s();
@@ -73,6 +75,9 @@ void guard_install();
 #define GUARD_ENTER() (g_guard_armed = 1, sigsetjmp(g_guard_jmp, 1))
 #define GUARD_LEAVE() (g_guard_armed = 0)
 const char *signame(int sig);
+// sanitizer flavour: number of AddressSanitizer reports so far (always 0 in the plain flavour)
+extern volatile uint64_t g_san_errors;
+struct SanWatch { uint64_t at; SanWatch() : at(g_san_errors) {} bool tripped() const { return g_san_errors != at; } };
 
 // ---------------------------------------------------------------- checks
 struct Check {
